@@ -15,6 +15,8 @@ static std::map<std::string, long> g_labels;
 static bool g_nt = false;
 static long g_skipped = 0, g_ops = 0;
 static std::vector<std::string> g_notes;
+void (*cleanup_hook)() = nullptr;   // e.g. removal of the per-case temporary directory; runs before every exit path
+static void run_cleanup() { if (cleanup_hook) { auto f = cleanup_hook; cleanup_hook = nullptr; f(); } }
 
 void set_report(int fd, bool verb) { g_fd = fd; g_verbose = verb; }
 bool verbose() { return g_verbose; }
@@ -61,12 +63,14 @@ void violation(const char *cls, const char *fmt, ...) {
         for (auto &n : g_notes) fprintf(stdout, "  %s\n", n.c_str());
         fflush(stdout);
     }
+    run_cleanup();
     emit("VIOL", cls, m);
     _exit(g_verbose ? 1 : 0);
 }
 
 void internal_error(const char *fmt, ...) {
     va_list ap; va_start(ap, fmt); std::string m = vfmt(fmt, ap); va_end(ap);
+    run_cleanup();
     emit("INTERNAL", "INTERNAL", m);
     _exit(g_verbose ? 3 : 0);
 }
@@ -86,6 +90,7 @@ void note(const char *fmt, ...) {
 const std::vector<std::string> &notes() { return g_notes; }
 
 void finish_ok() {
+    run_cleanup();
     // explicit leak check: the child leaves through _exit, so the atexit check never runs
     if (__lsan_do_recoverable_leak_check && getenv("VF_LSAN")) {
         if (__lsan_do_recoverable_leak_check() != 0) {
